@@ -385,9 +385,31 @@ fn c16b_ipv4prefix_from_str_10() {
     check_v4_from_str(s);
 }
 
+/// The length part of a prefix text, for every 0..=3 ASCII bytes after the
+/// fixed address "::/": no panic (in particular no underflow in
+/// `128 - addr_len`), accepted => length <= 128.
+// vk: bound=the literal "::/" followed by 0..=3 arbitrary ASCII bytes
+#[kani::proof]
+#[kani::unwind(8)]
+fn c16b_ipv6prefix_length_part() {
+    let d: [u8; 3] = kani::any();
+    let n: usize = kani::any();
+    kani::assume(n <= 3);
+    kani::assume(d[0] < 128 && d[1] < 128 && d[2] < 128);
+    let buf = [b':', b':', b'/', d[0], d[1], d[2]];
+    let Ok(s) = std::str::from_utf8(&buf[..3 + n]) else { return };
+    let r = Ipv6Prefix::from_str(s);
+    if let Ok(p) = r {
+        assert!(p.addr_len <= 128);
+        assert!(p.addr.to_bits() == 0);
+    }
+    kani::cover!(r.is_ok() && n == 3);
+    kani::cover!(r.is_err() && n == 3 && d[0] == b'1' && d[1] == b'2' && d[2] == b'9');
+}
+
 /// IPv6 prefix text: no panic for any string of up to 6 ASCII bytes (long
 /// enough for "::/129" and "::1/0"); accepted => length <= 128, host bits zero.
-// vk: timeout=900; bound=0..=6 ASCII bytes
+// vk: tier=thorough; timeout=2400; bound=0..=6 ASCII bytes
 #[kani::proof]
 #[kani::unwind(8)]
 fn c16b_ipv6prefix_from_str_6() {
